@@ -820,6 +820,8 @@ def gen_cross_c12(r, tier, info):
 
 def special_c07(res, tier, seed, workdir, stats):
     """Default of the back ends that only run under Miri (NeonHash, WasmHash) + the BE portable path"""
+    # the `impl Default` of every back end, read from the source: constructor applied to the derived all-zero key
+    skeleton_translation(res, tier, seed, workdir, stats, pid="C07")
     def g_neon(r, tier, info):
         return [gen.default_case(r, ["portable", "neon", "auto"], std=False) for _ in range(8 if tier == "quick" else 100)]
 
@@ -1027,6 +1029,8 @@ def skeleton_translation(res, tier, seed, workdir, stats, pid="C05"):
     length: the buffer test, the chunk loop as `absorb`, fill / set_to / inner as their Pkt models, `update(data_to_lanes(..))`
     as the abstract `upd`) and the prologue of finalize64/128/256 (remainder test, round count) of all five back ends from the
     working tree, and each is proved equal to the model's `appendG` / `finalizeCommon K` for every state and byte string (rfl);
+    `impl Default` of every back end is checked to be `<ctor>(Key::default())` with `Key` deriving `Default` (= the model's
+    `default := new V4.zero`);
     HashPacket::{fill, set_to, len, is_empty, inner, as_slice} of src/internal.rs are translated with slices as lists
     (a view = offset + length, copy_from_slice = take ++ src ++ drop, split_at = take/drop) and proved equal to the Pkt model.
     Advisory: an untranslatable function is 'not translated'; a failing theorem escalates the search, never an alarm by itself."""
@@ -1063,7 +1067,12 @@ def skeleton_translation(res, tier, seed, workdir, stats, pid="C05"):
         tag = SKEL_TAGS.get(ty)
         if not tag:
             continue
-        thms += [f"HH.Gen.Skel.append_{tag}_eq", f"HH.Gen.Skel.append_{tag}_model"] if fn == "append" else [f"HH.Gen.Skel.{fn}_pro_{tag}_eq"]
+        if fn == "append":
+            thms += [f"HH.Gen.Skel.append_{tag}_eq", f"HH.Gen.Skel.append_{tag}_model"]
+        elif fn == "default":
+            thms.append(f"HH.Gen.Skel.default_{tag}_eq")
+        else:
+            thms.append(f"HH.Gen.Skel.{fn}_pro_{tag}_eq")
     ok, blog = hh.lake_build(["HH.Generated.Skeleton"])
     if ok:
         ax, text = hh.audit_axioms("HH.Generated.Skeleton", thms)
